@@ -127,7 +127,7 @@ PROPS = {
     "C14": dict(
         cases_mod="CasesText", check_fn="check_C14", shard=200,
         rule="(input, pattern) pairs: a seed-determined slice of the exhaustive product {19 symbols} x {width 1..5} x {all strings up to length 2 (thorough: 3) over 0 1 9 + - : . Z T a p m ' space e-acute euro emoji} x {Date, Time, DateTime}; composite patterns from the item grammar with single-edit mutations (deleted/inserted quotes, NUL, multi-byte), inputs produced by formatting then truncated / extended / damaged; format with every hostile pattern incl. lone and unbalanced apostrophes; parse_rfc3339, FromStr of all three types and CronSchedule::from_str on small and damaged strings. Dev profile = overflow checks on. Non-trivial: every case.",
-        explanation="see props/C14.v for what is proved; figures describe the differential run.",
+        explanation="Proved for the model (props/C14.v): Date/Time/DateTime::parse, parse_rfc3339 and the three from_str never reach Panic for any input and pattern text; every Ok is a valid value (day number in i32, time of day < 24 h, offset inside +-24 h, instant and local reading representable); format is Ok for every pattern and every valid value. CronSchedule::parse has no panic outcome in its model (option type) and is watched by the run only. The run ties the model's outcome class to the implementation's.",
         trusted_base=TB_COMMON + ["serde / serde_json (C20) from the offline cargo cache"], assumptions=ASSUME_COMMON + ["the current year read by the two-letter year parser is a parameter (now_year) passed by the harness"],
     ),
     "C20": dict(
